@@ -155,7 +155,7 @@ func modelVerdict(m *mtree, op c02Op) verdict {
 			return verdict{expOK, none}
 		}
 		return verdict{expFail, none}
-	case "setattr", "write", "read", "access", "mntattr":
+	case "setattr", "write", "read", "access", "mntattr", "roundtrip":
 		return verdict{expEither, none} // only their attributes are judged (C04)
 	}
 	panic("unknown op " + op.Kind)
@@ -271,7 +271,7 @@ func hasKind(kinds []string, k string) bool {
 	return false
 }
 
-var c02Kinds = []string{"lookup", "lookup", "create", "create", "mkdir", "mkdir", "symlink", "remove", "rmdir", "rename", "rename", "readdir", "readdirplus", "getattr", "readlink"}
+var c02Kinds = []string{"lookup", "lookup", "lookup", "create", "create", "create", "mkdir", "mkdir", "mkdir", "symlink", "symlink", "remove", "remove", "rmdir", "rmdir", "rename", "rename", "rename", "readdir", "readdir", "readdirplus", "readdirplus", "getattr", "getattr", "readlink", "readlink", "roundtrip"}
 
 var c02CachedConfigs = func() []cacheCfg {
 	var out []cacheCfg
@@ -376,6 +376,14 @@ func (c *nsClient) exec(op c02Op) *nsViolation {
 	s := c.s
 	if op.Kind == "mntattr" {
 		return c.execMntAttr(op)
+	}
+	if op.Kind == "roundtrip" {
+		// UpdateExportOptions(GetExportOptions()) is a no-op for every later reply
+		if err := s.e.NFS.UpdateExportOptions(s.e.NFS.GetExportOptions()); err != nil {
+			return &nsViolation{"options-round-trip-rejected", fmt.Sprintf("UpdateExportOptions(GetExportOptions()): %v", err)}
+		}
+		c.labels["options_round_trip"] = true
+		return nil
 	}
 	pre := c.v.Snapshot()
 	var mismatch bool
